@@ -357,7 +357,7 @@ func shutReport(c *Ctx, r *shutRun, pid string) {
 func runC11(c *Ctx) {
 	n := 60
 	if !c.Quick() {
-		n = 1500
+		n = 6000
 	}
 	mechs := []string{"close", "close", "close", "cancel", "list-error", "close-x3"}
 	for i := 0; i < n; i++ {
@@ -384,7 +384,7 @@ func runC11(c *Ctx) {
 func runC12(c *Ctx) {
 	n := 50
 	if !c.Quick() {
-		n = 1200
+		n = 5000
 	}
 	mechs := []string{"close", "close-x3", "cancel", "list-error", "close"}
 	for i := 0; i < n; i++ {
